@@ -123,3 +123,29 @@ contract(FB, "Fiber.__imul__", cases=[dict(self="Fiber", other="U")], case_names
                             "self.payloads[j].value == old_value(self.payloads[j])), 0, len(self.payloads))"])},
          narrow={"p": "Payload"},
          note="scalar operand, leaf rank traversed compressed: `for _, p in self: p *= other` (fiber operands and uncompressed ranks: bounded part)")
+
+# ---------------------------------------------------------------- tensor-level point access delegates to the root fiber (C03), 1-D tensors
+TS = "fibertree/core/tensor.py"
+field("Tensor._root", "Payload|Fiber")
+contract(TS, "Tensor.getRoot", inline=True)
+R = "self._root"
+ROOT_REQ = ["typeis(%s, 'Fiber')" % R, "len(self.ranks) > 0", "len(self.ranks[0].fibers) > 0", "%s is self.ranks[0].fibers[0]" % R,
+            "wf(%s)" % R, "isnone(%s._max_coord)" % R, "%s.g_leaf" % R, "not Metrics.collecting",
+            "forall(lambda k: typeis(%s.payloads[k], 'Payload'), 0, len(%s.payloads))" % (R, R)]
+contract(TS, "Tensor.getPayload", cases=[{"self": "Tensor", "*args": "tuple[int]"}], case_names=["point"], returns="Payload|Fiber",
+         ghost={"coord": "args[0]"},
+         requires=ROOT_REQ, modifies=["%s._saved_pos" % R, "%s._saved_count" % R, "%s._saved_dist" % R],
+         ensures={"C03 C10": [
+             "forall(lambda k: implies(%s.coords[k] == coord, result is %s.payloads[k]), 0, len(%s.coords))" % (R, R, R),
+             "implies(forall(lambda k: %s.coords[k] != coord, 0, len(%s.coords)), fresh(result) and typeis(result, 'Payload') and result.value == %s.g_default)" % (R, R, R),
+             "unchanged_list(%s.coords)" % R, "unchanged_list(%s.payloads)" % R]},
+         note="a 1-D tensor answers a point read exactly as its root fiber does (deeper tensors: bounded part)")
+contract(TS, "Tensor.getPayloadRef", cases=[{"self": "Tensor", "*args": "tuple[int]"}], case_names=["point"], returns="Payload|Fiber",
+         ghost={"coord": "args[0]"},
+         requires=ROOT_REQ, modifies=["%s._saved_pos" % R, "%s._saved_count" % R, "%s._saved_dist" % R, "list:%s.coords" % R, "list:%s.payloads" % R],
+         ensures={"C03 C01": [
+             "wf(%s)" % R,
+             "exists(lambda r: 0 <= r < len(%s.coords) and %s.coords[r] == coord and result is %s.payloads[r])" % (R, R, R),
+             "implies(old(member(coord, %s.coords)), unchanged_list(%s.coords) and unchanged_list(%s.payloads))" % (R, R, R),
+             "implies(not old(member(coord, %s.coords)), len(%s.coords) == old(len(%s.coords)) + 1 and fresh(result) and result.value == %s.g_default)" % (R, R, R, R)]},
+         note="a 1-D tensor hands out the reference its root fiber does")
